@@ -238,7 +238,28 @@ var rethrowTemplates = []struct{ name, src string }{
 	{"rethrow-in-finally-scope", "try {\ntry {\nthrow \"s\"\n} catch e {\nthrow e\n} finally {\nprobe(\"after\")\n}\n} catch e2 {\nprobe(e2)\n}"},
 }
 
+// deferred calls see their arguments as evaluated at the defer statement
+var deferArgTemplates = []struct{ src, want string }{
+	{"a = [1, 2]\nfunc() {\ndefer probe(a[0])\na[0] = 5\n}()", "(i 1)"},
+	{"a = [1, 2]\nfunc() {\ndefer probe2(a[0], a[1])\na[0], a[1] = a[1], a[0]\n}()", "(i 1) (i 2)"},
+	{"x = 1\nfunc() {\ndefer probe(x)\nx = 2\n}()", "(i 1)"},
+	{"a = [1]\nfunc() {\ndefer func(v) { probe(v) }(a[0])\na[0] = 7\n}()", "(i 1)"},
+	{"a = [[1]]\nfunc() {\ndefer probe(a[0])\na[0][0] = 9\n}()", "(l (i 9))"},
+}
+
 func streamErrors(o *Out, r *rand.Rand, n int, thorough bool) {
+	for _, t := range deferArgTemplates {
+		stmt, err := parser.ParseSrc(t.src)
+		if err != nil {
+			o.Fail(Failure{Oracle: "errors-template-parses", Key: "errors-template-parse", Input: t.src, Detail: err.Error()})
+			continue
+		}
+		res := runVM(stmt, -1, 3*time.Second)
+		o.Case(fmt.Sprintf("(run %d _ %s)", modelFuel, astser.Prog(stmt)), res.line, t.src, true)
+		if res.err != nil || strings.Join(res.trace, " ") != t.want {
+			o.Fail(Failure{Oracle: "defer-arguments-at-defer-time", Key: "defer-args", Input: t.src, Detail: fmt.Sprintf("deferred call saw %v (err %v), expected %s", res.trace, res.err, t.want)})
+		}
+	}
 	for _, t := range rethrowTemplates {
 		stmt, err := parser.ParseSrc(t.src)
 		if err != nil {
